@@ -96,6 +96,10 @@ func (c04Driver) Generate(t *tape.Tape, tier string) core.Case {
 	if t.Chance(3, 5) {
 		p.MaxInvalid = 0
 	}
+	// augments whose target path runs through an implicit case are applied
+	// (or not) after the implicit cases were inserted: the tree must be proper
+	// all the same
+	p.LateAugments = t.Sub("late").Chance(1, 5)
 	g := model.Generate(t.Sub("scenario"), p)
 	c.Scenario = g.S
 	c.Injected = g.Injected
@@ -193,7 +197,23 @@ func (c04Driver) Run(cc core.Case) core.Outcome {
 	last := res.Ops[len(res.Ops)-1]
 	clean := len(last.Errs) == 0
 	mustReport := ""
-	if c.Scenario != nil && len(latestOnly(c.Scenario).Mods) == len(c.Scenario.Mods) {
+	lateAug := false
+	if c.Scenario != nil {
+		for _, m := range c.Scenario.Mods {
+			for _, a := range m.Augments {
+				if a.Late {
+					lateAug = true
+				}
+			}
+		}
+	}
+	if lateAug {
+		o.Count("probe.augment_through_implicit_case", 1)
+		if clean {
+			o.Count("probe.augment_through_implicit_case_and_clean", 1)
+		}
+	}
+	if c.Scenario != nil && !lateAug && len(latestOnly(c.Scenario).Mods) == len(c.Scenario.Mods) {
 		// (with two revisions of a module loaded and importers pinned to the
 		// older one, a collision the reference model sees among the latest
 		// revisions may not arise: the invariant alone is checked then)
